@@ -129,6 +129,67 @@ Definition prog_opf_old : program :=
 (* before the repair "a DC power flow re-initialises the result tables unless it starts from previous results" rundcpp
    ran prog_pf_results (verify_results); now it runs prog_pf *)
 
+(* ---- short circuit, three-phase power flow, state estimation.
+   None of them clears net._pd2ppc_lookups (powerflow.py:62-64 / optimal_powerflow.py:61-63 do).  The lookups split into
+   F_LOOKUPS = the entries _pd2ppc always rewrites ("bus", "aux", "merged_bus", "bus_dc", "aux_dc", "branch", "branch_dc":
+   build_bus.py:442-445/:523-524, build_branch.py:128-140) and F_LK_GEN = the entries per kind of generating element
+   ("gen", "ext_grid", "<kind>_controllable", ...), which pd2ppc.py:467-475 _build_gen_lookups writes only for a kind that has
+   an in-service element - otherwise the entry of the previous calculation stays and is what pd2ppc.py:448 (ref_gens),
+   runpp_3ph.py:620 and results_gen.py read.  allkinds = every kind whose lookup is read has an in-service element (the
+   entry is rewritten before it is read). *)
+Definition F_LK_GEN := 13%nat.
+Definition F_RES_SC := 14%nat.       (* res_*_sc *)
+Definition F_RES_3PH := 15%nat.      (* res_*_3ph *)
+Definition F_RES_EST := 16%nat.      (* res_*_est *)
+Definition F_PPC_SEQ := 17%nat.      (* _ppc0, _ppc1, _ppc2 *)
+Definition lk_gen_reads (allkinds : bool) : list loc :=
+  [LTab T_TABLES; LCache F_IS_ELEMENTS] ++ (if allkinds then [] else [LCache F_LK_GEN]).
+Definition pd2ppc_acts (allkinds : bool) (extra : list loc) (fn : nat) : program :=
+  [ act F_IS_ELEMENTS [LTab T_TABLES; LCache F_OPTIONS] 6;
+    act F_SWITCH_INFO [LTab T_TABLES; LCache F_OPTIONS] 6;
+    act F_LOOKUPS [LTab T_TABLES; LCache F_OPTIONS; LCache F_IS_ELEMENTS] 7;
+    act F_LK_GEN (lk_gen_reads allkinds) 18;
+    act F_ISOLATED [LTab T_TABLES; LCache F_OPTIONS; LCache F_IS_ELEMENTS; LCache F_LOOKUPS] 8;
+    act F_PPC ([LTab T_TABLES; LCache F_OPTIONS; LCache F_IS_ELEMENTS; LCache F_LOOKUPS; LCache F_LK_GEN; LCache F_ISOLATED] ++ extra) fn ].
+(* calc_sc (shortcircuit/calc_sc.py:143-165, :207-268): options, init_results(net, "sc"), auxiliary elements, _pd2ppc,
+   currents, _extract_results (res_*_sc), _clean_up (reads res_gen to drop the rows of auxiliary gens).
+   prefault = use_pre_fault_voltage: reads net._options["trafo_model"] of the previous power flow (:130) and starts from
+   res_bus (init "results") - a dependence on the previous calculation by design *)
+Definition sc_front (allkinds prefault : bool) : program :=
+  [ act F_OPTIONS ([LTab T_ARGS; LTab T_TABLES] ++ (if prefault then [LCache F_OPTIONS] else [])) 1;
+    act F_RES_SC [LTab T_TABLES; LTab T_EMPTY_RES] 4;
+    act F_AUX [LCache F_AUX; LTab T_TABLES] 3 ] ++
+  pd2ppc_acts allkinds (if prefault then [LCache F_RES_BUS; LCache F_RES_OTHER] else []) 19 ++
+  [ act F_PPC [LCache F_PPC; LCache F_OPTIONS; LCache F_LOOKUPS; LCache F_IS_ELEMENTS; LCache F_SWITCH_INFO; LTab T_TABLES] 20;
+    act F_RES_SC [LCache F_PPC; LTab T_TABLES; LCache F_LOOKUPS; LCache F_IS_ELEMENTS; LCache F_OPTIONS; LCache F_RES_SC] 21 ].
+(* _clean_up: res_gen keeps its content except the rows of the auxiliary gens (the power flow results are not the
+   short circuit's to compute: they pass through) *)
+Definition sc_tail : program :=
+  [ act F_RES_OTHER [LCache F_RES_OTHER; LCache F_AUX] 22;
+    act F_AUX [] FN_CLEAN ].
+Definition prog_sc (allkinds prefault : bool) : program := sc_front allkinds prefault ++ sc_tail.
+(* runpp_3ph (pf/runpp_3ph.py:138-653): options, init_results(net, "pf_3ph"), three _pd2ppc_recycle, the solver, results
+   (reads the ext_grid lookup :620), converged, _clean_up; no auxiliary elements are added *)
+Definition prog_pf3ph (allkinds : bool) : program :=
+  [ act F_OPTIONS [LTab T_ARGS; LTab T_USER_OPTIONS; LTab T_TABLES] 1;
+    act F_RES_3PH [LTab T_TABLES; LTab T_EMPTY_RES] 4 ] ++
+  pd2ppc_acts allkinds [] 23 ++
+  [ act F_PPC_SEQ [LCache F_PPC; LCache F_OPTIONS; LCache F_LOOKUPS; LCache F_LK_GEN; LCache F_IS_ELEMENTS; LTab T_TABLES] 24;
+    act F_RES_3PH [LCache F_PPC_SEQ; LTab T_TABLES; LCache F_LOOKUPS; LCache F_LK_GEN; LCache F_IS_ELEMENTS; LCache F_OPTIONS; LCache F_RES_3PH] 25;
+    act F_CONVERGED [LCache F_PPC_SEQ] 11;
+    act F_AUX [LCache F_AUX] 29;                                                    (* _clean_up looks at the tracking state *)
+    act F_AUX [] FN_CLEAN ].
+(* estimate with all buses fused (estimation/state_estimation.py:245-257, ppc_conversion.py:70-85 _init_ppc): options,
+   _pd2ppc, measurements, solver, eppci2pp (res_*_est); results = init="results": the start vector is read from res_bus
+   (and res_xward / res_trafo3w for auxiliary buses) *)
+Definition prog_est (allkinds results : bool) : program :=
+  [ act F_OPTIONS ([LTab T_ARGS; LTab T_TABLES] ++ (if results then [LCache F_RES_BUS] else [])) 1 ] ++
+  pd2ppc_acts allkinds (if results then [LCache F_RES_BUS; LCache F_RES_OTHER] else []) 26 ++
+  [ act F_PPC [LCache F_PPC; LCache F_OPTIONS; LCache F_LOOKUPS; LTab T_TABLES] 27;
+    act F_RES_EST [LCache F_PPC; LTab T_TABLES; LCache F_LOOKUPS; LCache F_IS_ELEMENTS; LTab T_EMPTY_RES] 28 ].
+(* estimate with fuse_buses_with_bb_switch != 'all': set_bb_switch_impedance runs complete power flows first (util.py:66) *)
+Definition prog_est_bb (allkinds : bool) : program := prog_pf ++ prog_est allkinds false.
+
 (* a history: edits of the user-visible state and calculations *)
 Inductive hop :=
 | Edit (f : env -> env)          (* any change of tables / stored user options / arguments *)
@@ -145,6 +206,18 @@ Definition frame_ok (p : program) : bool :=
   forallb (fun c => Nat.eqb c F_AUX) (rbw p) &&
   match rev p with a :: _ => Nat.eqb (a_target a) F_AUX && Nat.eqb (a_fun a) FN_CLEAN && match a_reads a with [] => true | _ => false end
                  | [] => false end.
+
+(* the last write to the tracking state, if any, empties it *)
+Fixpoint lc_from (b : bool) (p : program) : bool :=
+  match p with
+  | [] => b
+  | a :: r => lc_from (if Nat.eqb (a_target a) F_AUX
+                       then Nat.eqb (a_fun a) FN_CLEAN && match a_reads a with [] => true | _ => false end
+                       else b) r
+  end.
+Definition leaves_clean (p : program) : bool := lc_from true p.
+(* generalisation: the only fields read before written lie in R *)
+Definition frame_on (R : list nat) (p : program) : bool := forallb (fun c => memn c R) (rbw p).
 
 (* ================================================================== Part 2 *)
 Open Scope Q_scope.
@@ -174,12 +247,53 @@ Definition defined (v : list (option Q * option Q)) : bool := forallb (fun p => 
 Definition G09 (bs : list busrow) : bool :=
   forallb (fun b => negb (b_kept b) || ((is_num (b_set_vm b) || is_num (b_prev_vm b)) && (is_num (b_set_va b) || is_num (b_prev_va b)))) bs.
 
+(* ---- auxiliary buses (xward, trafo3w star point): build_bus.py:557-568 _fill_auxiliary_buses.  Their start value is the
+   internal voltage of the element in its own result table; without one (NaN) it is the value just written for the bus of
+   the element (the previous result or flat - the set points of generators are written later, build_gen.py); the auxiliary
+   bus of an xward is voltage controlled (set point vm_pu of the xward, build_gen.py:239-258). *)
+Record auxrow := {
+  a_prev_vm : option Q;       (* res_<element>.vm_internal_pu *)
+  a_prev_va : option Q;       (* res_<element>.va_internal_degree *)
+  a_bus : nat;                (* position of the element's bus in the bus table *)
+  a_set_vm : option Q;        (* xward.vm_pu for an in-service xward *)
+  a_kept : bool
+}.
+Definition init_vm (b : busrow) : option Q := flat 1 (b_prev_vm b).
+Definition init_va (b : busrow) : option Q := flat 0 (b_prev_va b).
+Definition aux_vm (bs : list busrow) (a : auxrow) : option Q :=
+  match a_set_vm a with
+  | Some v => Some v
+  | None => match a_prev_vm a with
+            | Some v => Some v
+            | None => match nth_error bs (a_bus a) with Some b => init_vm b | None => None end
+            end
+  end.
+Definition aux_va (bs : list busrow) (a : auxrow) : option Q :=
+  match a_prev_va a with
+  | Some v => Some v
+  | None => match nth_error bs (a_bus a) with Some b => init_va b | None => None end
+  end.
+Definition start_vector_aux (bs : list busrow) (axs : list auxrow) : list (option Q * option Q) :=
+  start_vector bs ++ map (fun a => (aux_vm bs a, aux_va bs a)) (filter a_kept axs).
+Definition aux_wf (bs : list busrow) (axs : list auxrow) : bool :=
+  forallb (fun a => Nat.ltb (a_bus a) (List.length bs)) axs.
+
 (* ---- output *)
-Definition run_rbw (k : nat) : out :=
-  olist onat (match k with O => rbw prog_pf | 1%nat => rbw prog_pf_results | 2%nat => rbw prog_opf | _ => rbw prog_opf_old end).
+Definition prog_of_nat (k : nat) : program :=
+  match k with
+  | O => prog_pf | 1%nat => prog_pf_results | 2%nat => prog_opf | 3%nat => prog_opf_old
+  | 4%nat => prog_sc true false | 5%nat => prog_sc false false | 6%nat => prog_sc true true | 7%nat => prog_sc false true
+  | 8%nat => prog_pf3ph true | 9%nat => prog_pf3ph false
+  | 10%nat => prog_est true false | 11%nat => prog_est false false | 12%nat => prog_est true true | 13%nat => prog_est false true
+  | 14%nat => prog_est_bb true | _ => prog_est_bb false
+  end.
+Definition run_rbw (k : nat) : out := olist onat (rbw (prog_of_nat k)).
+Definition run_writes (k : nat) : out := olist onat (writes (prog_of_nat k)).
 Definition run_frame_ok (k : nat) : out :=
   OB (frame_ok (match k with O => prog_pf | 1%nat => prog_pf_results | _ => prog_opf end)).
 Definition run_start (bs : list busrow) : out :=
   OL [ olist (fun p => OL [ooq (fst p); ooq (snd p)]) (start_vector bs); OB (defined (start_vector bs)); OB (G09 bs) ].
 Definition run_start_old (bs : list busrow) : out :=
   OL [ olist (fun p => OL [ooq (fst p); ooq (snd p)]) (start_vector_old bs); OB (defined (start_vector_old bs)); OB (G09 bs) ].
+Definition run_start_aux (bs : list busrow) (axs : list auxrow) : out :=
+  OL [ olist (fun p => OL [ooq (fst p); ooq (snd p)]) (start_vector_aux bs axs); OB (defined (start_vector_aux bs axs)); OB (aux_wf bs axs) ].
